@@ -6,7 +6,7 @@ patch=$(readlink -f "$1"); shift
 wt=$(mktemp -d /tmp/mutwt-XXXXXX)
 git -C /repo worktree add -q --detach "$wt" HEAD || exit 2
 trap 'git -C /repo worktree remove --force "$wt" 2>/dev/null; rm -rf "$wt"' EXIT
-( cd "$wt" && git apply "$patch" ) || { echo "patch does not apply"; exit 2; }
+( cd "$wt" && { git apply "$patch" 2>/dev/null || git apply --3way "$patch" >/dev/null 2>&1; } ) || { echo "patch does not apply"; exit 2; }
 for id in "$@"; do
   t0=$(date +%s)
   out=$(cd /verif && VERIF_REPO="$wt" ./check $id --tier ${TIER:-quick} 2>&1)
